@@ -24,7 +24,7 @@ import (
 func init() { register("C07", "exploration", runC07) }
 
 func runC07(r *ev.Run) {
-	r.SetRule("a base state (3 mailboxes, 9 messages with flags, a subscription change) is built once and its directories are copied for every trial. For each of ~20 operations (APPEND, COPY, MOVE, STORE, EXPUNGE, UID EXPUNGE, CLOSE, CREATE with parents, DELETE, RENAME, RENAME INBOX, SUBSCRIBE/UNSUBSCRIBE, connector delivery and deletion) a reference run without faults records how often every failpoint (SQL query/exec inside the transaction, before/after COMMIT, after the state's and the user's commit, in the middle of the store's Set) and every store call (Set/Get/Delete) is reached and what the state is afterwards. Trials then enumerate (operation, point, k-th hit, crash | injected error): the server runs in a child process that SIGKILLs itself at the point or returns an error from it; survivors are either SIGKILLed or closed; a subset is also killed during the next start-up. After the final restart the complete observation (LIST, LSUB, UIDVALIDITY, UIDNEXT, UIDs, flags, bytes of every message) must equal the state before or the state after the operation - for every mailbox - and must be the state after whenever the operation had been answered OK; every message must be fetchable with the bytes that were handed in; the number of files in the store must equal the number of message rows in the index and no row may still be marked for deletion. A second part runs a fixed script of 10 operations back to back and SIGKILLs the process after a PRNG-chosen delay: with j operations acknowledged, every mailbox must afterwards be in the reference state after j or j+1 operations. distinct = distinct (operation, point, mode, outcome) tuples and numbers of operations acknowledged before a random kill")
+	r.SetRule("a base state (4 mailboxes, 21 messages with flags, a subscription change, one message the remote rejected waiting in the recovery mailbox) is built once and its directories are copied for every trial. For each of ~20 operations (APPEND, COPY, MOVE, STORE, EXPUNGE, UID EXPUNGE, CLOSE, CREATE with parents, DELETE, RENAME, RENAME INBOX, SUBSCRIBE/UNSUBSCRIBE, MOVE / COPY out of the recovery mailbox, connector delivery and deletion) a reference run without faults records how often every failpoint (SQL query/exec inside the transaction, before/after COMMIT, after the state's and the user's commit, in the middle of the store's Set) and every store call (Set/Get/Delete) is reached and what the state is afterwards. Trials then enumerate (operation, point, k-th hit, crash | injected error): the server runs in a child process that SIGKILLs itself at the point or returns an error from it; survivors are either SIGKILLed or closed; a subset is also killed during the next start-up. After the final restart the complete observation (LIST, LSUB, UIDVALIDITY, UIDNEXT, UIDs, flags, bytes of every message) must equal the state before or the state after the operation - for every mailbox - and must be the state after whenever the operation had been answered OK; every message must be fetchable with the bytes that were handed in; the number of files in the store must equal the number of message rows in the index and no row may still be marked for deletion. A second part runs a fixed script of 10 operations back to back and SIGKILLs the process after a PRNG-chosen delay: with j operations acknowledged, every mailbox must afterwards be in the reference state after j or j+1 operations. distinct = distinct (operation, point, mode, outcome) tuples and numbers of operations acknowledged before a random kill")
 	r.Assume("process death is SIGKILL of the server process: what the OS has accepted survives (power loss and fsync ordering are out of reach of this technique); the harness connector lives in the server process and starts empty after a restart")
 
 	dir := caseDir(r, "c07")
@@ -526,6 +526,10 @@ func c07Ops() []*c07Op {
 		cmd("STORE-many", "Bulk", `STORE 1:12 +FLAGS (\Flagged kwmany)`),
 		cmd("EXPUNGE-many", "Bulk", "EXPUNGE"),
 		cmd("DELETE-nonempty", "", "DELETE Bulk"),
+		// taking a rescued message out of the recovery mailbox: imported at the remote, filed, the rescued copy marked
+		// for deletion (removed at the next start)
+		{name: "MOVE-out-of-recovery", sel: imapc.Quote(verifhooks.RecoveryMailboxName), startup: true, run: cmd("x", "", "MOVE 1 Work").run},
+		cmd("COPY-out-of-recovery", imapc.Quote(verifhooks.RecoveryMailboxName), "COPY 1 Other"),
 		ctl("connector-deliver", "deliver Work c07-remote"),
 		// a new message and one the server already has (c07-o1 of Other) arrive in one update for INBOX
 		ctl("connector-deliver-known", "deliver2 INBOX c07-remote u1rBmsg8 c07-o1"),
@@ -835,6 +839,12 @@ func c07BuildBase(dir string) (string, map[string][]byte, error) {
 	put("Work", "c07-w3", `\Answered`)
 	put("Other", "c07-o1", ``)
 	put("Other", "c07-o2", `\Draft`)
+
+	// a message the remote rejected: it waits in the recovery mailbox
+	_, _ = child.Ctl("rejectnext 1", 30*time.Second)
+
+	lits["c07-rec"] = simpleMessage("c07-rec", nil)
+	cn.Cmd("APPEND Work ", imapc.Lit(lits["c07-rec"]))
 
 	cn.Cmd("CREATE Bulk")
 
